@@ -21,6 +21,7 @@ use crate::{Ctx, Finish};
 /// 30-150 steps; an execution that runs into the step limit must not be extended 800000-fold).
 const ENUM_STEP_CAP: u64 = 1500;
 
+#[derive(Clone)]
 pub struct ConcSpec {
     pub prop: &'static str,
     pub own_tags: &'static [&'static str],
@@ -36,6 +37,8 @@ pub struct ConcSpec {
     /// sequential (1-thread) share in percent of the generated cases (C05)
     pub single_thread_pct: u32,
     pub lower_only_pct: u32,
+    /// calls per thread in generated programs (3; thorough tier 5)
+    pub max_thread_ops: usize,
 }
 
 pub fn verdict_for(spec: &ConcSpec, case: &ConcCase, out: &ConcOutcome) -> Verdict {
@@ -157,6 +160,7 @@ pub fn case_strategy(spec: &ConcSpec) -> BoxedStrategy<ConcCase> {
     let single = spec.single_thread_pct;
     let lower = spec.lower_only_pct;
     let freeze = spec.freeze;
+    let per_thread = spec.max_thread_ops;
     let tw = conc_weights();
     let sw = setup_weights();
     let nthreads = prop_oneof![
@@ -166,7 +170,7 @@ pub fn case_strategy(spec: &ConcSpec) -> BoxedStrategy<ConcCase> {
     ];
     (cfg_conc(), nthreads, 0u32..100)
         .prop_flat_map(move |(cfg, n, lo)| {
-            let max_ops = if n == 1 { 12 } else { 3 };
+            let max_ops = if n == 1 { 12 } else { per_thread };
             (
                 Just(cfg),
                 prop::collection::vec(op_strategy(&sw), 0..=6),
@@ -447,8 +451,17 @@ struct Shared {
     max_solo: AtomicU64,
 }
 
+/// run_conc with the current case registered for the fault handler
+fn run_tracked(prop: &str, case: &ConcCase, opts: &ConcOpts) -> ConcOutcome {
+    let doc = crate::fault_doc(prop, "conc", case);
+    crate::crash::set_current(&doc);
+    let out = run_conc(case, opts);
+    crate::crash::clear_current();
+    out
+}
+
 fn judge(spec: &ConcSpec, sh: &Shared, case: &ConcCase) -> Verdict {
-    let out = run_conc(case, &spec.opts);
+    let out = run_tracked(spec.prop, case, &spec.opts);
     sh.crash_checked.fetch_add(out.crash_checked, Ordering::Relaxed);
     sh.crash_skipped.fetch_add(out.crash_skipped, Ordering::Relaxed);
     if !out.crash_nontrivial.is_empty() {
@@ -484,7 +497,7 @@ fn run_catalogue(spec: &ConcSpec, sh: &Shared, k: usize, ev: &mut Evidence) -> O
                 freeze: None,
                 split_deal: t.split_deal(),
             };
-            let out = run_conc(&case, &ConcOpts::default());
+            let out = run_tracked(spec.prop, &case, &ConcOpts::default());
             items.push((ti, base.clone(), None));
             for p in 1..=out.steps.min(ENUM_STEP_CAP) as u32 {
                 for to in 0..(n as u8 - 1) {
@@ -501,6 +514,7 @@ fn run_catalogue(spec: &ConcSpec, sh: &Shared, k: usize, ev: &mut Evidence) -> O
             std::thread::Builder::new()
                 .stack_size(16 << 20)
                 .spawn_scoped(s, move || {
+                    crate::crash::altstack();
                     let mut stats = Stats::default();
                     loop {
                         let i = next.fetch_add(1, Ordering::Relaxed);
@@ -541,7 +555,7 @@ fn run_catalogue(spec: &ConcSpec, sh: &Shared, k: usize, ev: &mut Evidence) -> O
                             let steps;
                             if spec.freeze {
                                 // freeze mode: every freeze point x every thread under this schedule
-                                let out0 = run_conc(&case, &ConcOpts::default());
+                                let out0 = run_tracked(spec.prop, &case, &ConcOpts::default());
                                 steps = out0.steps.min(ENUM_STEP_CAP);
                                 for p in 1..=steps as u32 {
                                     for th in 0..n {
@@ -560,7 +574,7 @@ fn run_catalogue(spec: &ConcSpec, sh: &Shared, k: usize, ev: &mut Evidence) -> O
                                     }
                                 }
                             } else {
-                                let out = run_conc(&case, &spec.opts);
+                                let out = run_tracked(spec.prop, &case, &spec.opts);
                                 steps = out.steps.min(ENUM_STEP_CAP);
                                 sh.crash_checked.fetch_add(out.crash_checked, Ordering::Relaxed);
                                 sh.crash_skipped.fetch_add(out.crash_skipped, Ordering::Relaxed);
@@ -642,6 +656,12 @@ fn stats_record(stats: &mut Stats, case: &ConcCase, v: &Verdict) {
 
 pub fn run_spec(spec: &ConcSpec, ctx: &Ctx) -> Finish {
     let thorough = ctx.tier == "thorough";
+    let mut spec = spec.clone();
+    if thorough {
+        spec.max_thread_ops = 5;
+    }
+    let spec = &spec;
+    crate::install_fault_handler(ctx);
     let mut ev = Evidence::new(spec.prop, &ctx.tier, ctx.seed, spec.level, spec.rule);
     ev.assumptions = vec![
         "sequentially consistent interleavings at the granularity of Atom operations (Acquire/Release reorderings are not explored)".into(),
@@ -739,6 +759,7 @@ pub fn spec_for(prop: &str) -> Option<ConcSpec> {
         freeze: false,
         single_thread_pct: 0,
         lower_only_pct: 25,
+        max_thread_ops: 3,
     };
     let mut spec = match prop {
         "C01" => ConcSpec {
